@@ -152,7 +152,7 @@ class State:
         self.x.feas_secs += time.time() - t
         return r != z3.unsat
 
-    def unique_value(self, e):
+    def unique_value(self, e, force=False):
         """if the z3 Int expression e can only take one value on this path, return it (else None)"""
         e = simp(e)
         if z3.is_int_value(e):
@@ -166,7 +166,7 @@ class State:
                     return other.as_long()      # a path fact states e == constant
                 pinned = True
                 break
-        if not pinned:
+        if not pinned and not force:
             return None
         cache = self.ghost.setdefault('unique_cache', {})
         key = (e.get_id(), len(self.pc))
